@@ -456,6 +456,15 @@ func init() {
 				s.ForceDuration(time.Duration(atoi64(p[1])), p[2] == "1")
 				continue
 			}
+			if p[0] == "swap" {
+				// the caller re-times cues by hand between two calls (the fields are public): the first and the last
+				// cue exchange their times, the number of cues stays
+				if n := len(s.Items); n > 1 {
+					a, b := s.Items[0], s.Items[n-1]
+					a.StartAt, a.EndAt, b.StartAt, b.EndAt = b.StartAt, b.EndAt, a.StartAt, a.EndAt
+				}
+				continue
+			}
 			applyOps(s, []string{op})
 		}
 		return encMItems(observe(s.Items, ids))
@@ -475,7 +484,9 @@ func init() {
 			f := r.rangeI(1, 5) * int64(time.Second)
 			d := r.rangeI(-6, 6) * int64(time.Second)
 			pool := []string{fmt.Sprintf("add:%d", d), fmt.Sprintf("add:%d", -d), fmt.Sprintf("frag:%d", f), fmt.Sprintf("frag:%d", 2*f), "unfrag", "order",
-				fmt.Sprintf("force:%d:%d", r.rangeI(1, 30)*int64(time.Second), r.intn(2)), "lin:1000000000:2000000000:5000000000:8000000000"}
+				fmt.Sprintf("force:%d:%d", r.rangeI(1, 30)*int64(time.Second), r.intn(2)), "lin:1000000000:2000000000:5000000000:8000000000",
+				// the same reference spans as the correction above, other reference points
+				"lin:3000000000:1000000000:7000000000:7000000000", "swap", "swap"}
 			var ops []string
 			for k := 2 + r.intn(3); k > 0; k-- {
 				ops = append(ops, pool[r.intn(len(pool))])
